@@ -603,7 +603,10 @@ class ProvRDFSerializer(Serializer):
                     for stmt in graph.triples(
                         (URIRef(id), URIRef(pm.PROV[qualifier].uri), None)
                     ):
-                        qualifier_bnode = stmt[2]
+                        # only a qualified node that does not name its own agent
+                        # takes its endpoints from the binary triple
+                        if (stmt[2], URIRef(pm.PROV["agent"].uri), None) not in graph:
+                            qualifier_bnode = stmt[2]
                     if qualifier_bnode is None:
                         getattr(bundle, relation_mapper[pred])(id, str(obj))
                     else:
